@@ -39,6 +39,9 @@ def run(tier):
             "CREATE TEMP TABLE t3 AS SELECT x, y FROM t2", "SELECT CASE WHEN x = 1 THEN c10 ELSE c11 END FROM t2, tt",
             "SELECT coalesce(c0, c3) FROM tt", "SELECT -c10, abs(c10), round(c11, 1), c10::DECIMAL(10,4) FROM tt", "SELECT c16, c15 FROM tt",
             "SELECT x FROM t2 WHERE x IN (SELECT x FROM t2)", "SELECT (SELECT max(x) FROM t2), EXISTS (SELECT 1 FROM t2)",
+            "SELECT c0 AS \"MyCol\", c1 AS OtherCol, c2 AS \"Other Col\", c3 \"ÜberCol\" FROM tt", "SELECT \"MixedCase\" FROM (SELECT c0 AS \"MixedCase\" FROM tt) q",
+            "SELECT c10::DECIMAL(12,4), c10::DECIMAL(4,1), c11::DECIMAL(18,5), c12::DECIMAL(38,2), c0::SMALLINT, c2::BIGINT FROM tt",
+            "SELECT c10 FROM tt UNION ALL SELECT c10::DECIMAL(12,4) FROM tt", "SELECT c12 FROM tt UNION SELECT c12::DECIMAL(38,2) FROM tt",
             "VALUES (1, 'a'), (2, 'b')", "SELECT * FROM (VALUES (1), (2.5)) v(x)", "SHOW partitions", "DESCRIBE tt"]
     for q in misc:
         stmts.append(("misc", q[:40], [q], None))
